@@ -17,6 +17,7 @@
 package cron
 
 import (
+	"encoding/json"
 	"errors"
 	"fmt"
 	"github.com/Comcast/rulio/core"
@@ -82,7 +83,12 @@ func AddHooks(ctx *core.Context, cronner Cronner, state core.State) error {
 
 		core.Log(core.INFO|CRON, ctx, "addHook", "id", id, "location", location, "schedule", schedule)
 
-		event := fmt.Sprintf(`{"trigger!":"%s"}`, id)
+		// (The id can contain anything, so let json do the quoting.)
+		quoted, err := json.Marshal(id)
+		if err != nil {
+			return err
+		}
+		event := fmt.Sprintf(`{"trigger!":%s}`, quoted)
 
 		se := &ScheduledEvent{
 			Id:       id,
